@@ -108,33 +108,70 @@ Proof.
 Qed.
 Print Assumptions c19_lookup_complete_unique.
 
-(** the operations of the caches as they are after the fix (the write-through
-    full-line install that kept the victim's PID is excluded) *)
-Definition current_op (o : op) : bool :=
-  match o with OInstallKeepPid _ _ => false | _ => true end.
-
-(** Every history of guarded directory-level operations of the two caches
-    (install on a miss into the FindVictim way, write/read hits, reader
-    release, bank-stage completion, write-evict, Invalidate with any filter,
-    flush clean-marking, Reset) keeps the directory well-formed. *)
+(** Every history of guarded directory-level operations of the WRITE-BACK cache
+    (install on a miss into the FindVictim way — evicting only a valid dirty
+    victim —, write/read hits, reader release, the validating bank-stage
+    completions, Invalidate with any filter skipping locked blocks, flush
+    clean-marking, Reset) keeps the directory well-formed, together with the
+    auxiliary invariant "a locked block is valid" that the validating bank-stage
+    completions rely on. *)
 Theorem c19_ops_preserve_wf : forall ns ways bs ops d, (0 < bs)%N ->
-  forallb current_op ops = true ->
+  forallb wb_op ops = true ->
+  dir_wf ns ways bs d = true -> LV d ->
+  dir_wf ns ways bs (run ns ways bs d ops) = true /\ LV (run ns ways bs d ops).
+Proof.
+  intros ns ways bs ops. induction ops as [|o ops IH]; intros d Hbs Hops Hwf Hlv; [split; assumption|].
+  cbn [forallb] in Hops. apply andb_true_iff in Hops. destruct Hops as [Ho Hops].
+  unfold run. cbn [fold_left]. apply IH; auto.
+  - apply dir_wf_iff. apply step_preserves_wf; auto.
+    + intros t p E. subst o. discriminate.
+    + destruct o; auto.
+    + apply dir_wf_iff. exact Hwf.
+  - apply step_preserves_lv; auto.
+Qed.
+Print Assumptions c19_ops_preserve_wf.
+
+(** The same for the WRITE-THROUGH family (write-around / write-evict /
+    write-through): install without eviction, hits, reader release, the
+    non-validating bank-stage unlock, write-evict invalidation, Invalidate of
+    every matching block (locked ones included), Reset. *)
+Theorem c19_ops_preserve_wf_wt : forall ns ways bs ops d, (0 < bs)%N ->
+  forallb wt_op ops = true ->
   dir_wf ns ways bs d = true -> dir_wf ns ways bs (run ns ways bs d ops) = true.
 Proof.
   intros ns ways bs ops. induction ops as [|o ops IH]; intros d Hbs Hops Hwf; [exact Hwf|].
   cbn [forallb] in Hops. apply andb_true_iff in Hops. destruct Hops as [Ho Hops].
   unfold run. cbn [fold_left]. apply IH; auto. apply dir_wf_iff. apply step_preserves_wf; auto.
-  - destruct o; try discriminate; cbn in Ho; discriminate.
+  - intros t p E. subst o. discriminate.
+  - destruct o; try exact I; discriminate.
   - apply dir_wf_iff. exact Hwf.
 Qed.
-Print Assumptions c19_ops_preserve_wf.
+Print Assumptions c19_ops_preserve_wf_wt.
 
-(** from Reset, every reachable state of the operation automaton is well-formed *)
+(** from Reset, every reachable state of either operation automaton is well-formed *)
 Corollary c19_reachable_wf : forall ns ways bs ops, (0 < bs)%N ->
-  forallb current_op ops = true ->
+  (forallb wb_op ops = true \/ forallb wt_op ops = true) ->
   dir_wf ns ways bs (run ns ways bs (reset ns ways bs) ops) = true.
-Proof. intros. apply c19_ops_preserve_wf; auto. apply c19_reset_wf. assumption. Qed.
+Proof.
+  intros ns ways bs ops Hbs [H|H].
+  - apply c19_ops_preserve_wf; auto; [apply c19_reset_wf; assumption|].
+    apply (step_preserves_lv ns ways bs [] OReset eq_refl). intros sid w b Hb. unfold get_block, zth in Hb. destruct (sid <? 0); [discriminate|].
+    destruct (Z.to_nat sid); discriminate.
+  - apply c19_ops_preserve_wf_wt; auto. apply c19_reset_wf. assumption.
+Qed.
 Print Assumptions c19_reachable_wf.
+
+(** regression: the write-back Invalidate BEFORE the fix invalidated locked
+    blocks too; with a fill in flight (Pause is acknowledged without waiting),
+    a later miss of the same line claims a second way and the bank stage then
+    re-validates the first: two valid blocks with the same (PID, line) *)
+Theorem c19_invalidate_locked_old_refuted :
+  dir_wf 1 2 64 (run 1 2 64 (reset 1 2 64)
+     [OInstall 1 0 false; OInvalidateAll [] 0; OInstall 1 0 false; OFinishFill 0 0; OFinishFill 0 1]) = false /\
+  dir_wf 1 2 64 (run 1 2 64 (reset 1 2 64)
+     [OInstall 1 0 false; OInvalidate [] 0; OInstall 1 0 false; OFinishFill 0 0; OFinishFill 0 1]) = true.
+Proof. vm_compute. split; reflexivity. Qed.
+Print Assumptions c19_invalidate_locked_old_refuted.
 
 (** regression: the pre-fix write-through full-line install (tag set, PID of
     the victim kept) produces two valid blocks with the same (PID, line) *)
